@@ -63,14 +63,17 @@ Definition create_group (s : st) (g : Z) (et : nat) (mem : list Z) (byname : boo
 (* attach_to_group(net, index, et, [elm], reference_columns=None) *)
 Definition rows_of (s : st) (g : Z) (et : nat) : list grow :=
   filter (fun r => (gid r =? g) && Nat.eqb (gty r) et) (grp s).
-(* after "fix: attach_to_group treats a NaN reference_column like None": None and NaN are the same (absent) column *)
-Definition attach (s : st) (g : Z) (et : nat) (elm : list Z) : result st :=
+(* after "fix: attach_to_group treats a NaN reference_column like None" (None and NaN are the same, absent, column) and
+   "fix: attach_to_group checks the existence of elements appended to an existing group row" (chk = true; chk = false is
+   the rule before that repair) *)
+Definition attach_gen (chk : bool) (s : st) (g : Z) (et : nat) (elm : list Z) : result st :=
   if negb (zin g (map gid (grp s))) then Err "ValueError" else
   match rows_of s g et with
   | [] => if exist_ok s et elm false
           then Ok (set_grp s (add_rows (grp s) [{| gid := g; gty := et; gmem := elm; grc := RNone |}]))
           else Err "UserWarning"
   | [r0] =>
+    if chk && negb (exist_ok s et elm false) then Err "UserWarning" else   (* :152 _check_elements_existence *)
     if rc_null (grc r0) then                                  (* :168-173 append the new ones, sorted *)
       Ok (set_grp s (map (fun r => if (gid r =? g) && Nat.eqb (gty r) et
                                    then {| gid := gid r; gty := gty r; gmem := gmem r ++ zdiff elm (gmem r); grc := grc r |}
@@ -78,6 +81,8 @@ Definition attach (s : st) (g : Z) (et : nat) (elm : list Z) : result st :=
     else Err "Unsupported"                                    (* index -> name conversion: not modelled *)
   | _ => Err "ValueError"
   end.
+Definition attach := attach_gen true.
+Definition attach_unchecked := attach_gen false.
 
 (* the behaviour before the repair, kept so that its return is recognised (C27_attach_old_nan_row_refuted) *)
 Definition attach_old (s : st) (g : Z) (et : nat) (elm : list Z) : result st :=
